@@ -2,7 +2,8 @@
      /repo/src/Db/Db.cpp, /repo/src/Db/PtrGeos.cpp, /repo/src/Basic/String.cpp
    State = the five private members of Db that the property couples:
      _ncol, _nech, _array (column-major), _uidcol, _colNames, _p[ELoc] (one PtrGeos per locator type).
-   The code is mirrored literally, defects included (see the comments marked DEFECT).
+   The code is mirrored literally, defects included (see the comment marked DEFECT; the other defects found by
+   this check have been repaired in /repo and the model follows the repaired code).
    Cell values are integers or NA (TEST): no arithmetic is ever done on them by the modelled editors.
    Names are lists of character codes over [A-Za-z0-9._-]; a name used as a *designator* goes through
    std::regex in the library, where, on this alphabet, only '.' is special (matches any character).
@@ -146,6 +147,12 @@ Definition opt_is (c : nat) (o : option nat) : bool :=
 (* getUIDByColIdx (Db.cpp:312): isColIdxValid, then the first uid whose entry is icol *)
 Definition uid_of_col (s : state) (c : nat) : option nat :=
   if c <? ncol s then find_index (opt_is c) (uidcol s) else None.
+(* _uidcol[iuid] >= 0 *)
+Definition live (s : state) (u : nat) : bool :=
+  match col_of_uid s u with Some _ => true | None => false end.
+(* getUIDByColIdx on a C int *)
+Definition uid_of_col_z (s : state) (c : Z) : option nat :=
+  match zidx c (ncol s) with Some c' => uid_of_col s c' | None => None end.
 Definition oz (o : option nat) : Z := match o with Some n => Z.of_nat n | None => (-1)%Z end.
 
 (* getColIdxByLocator Db.cpp:332 *)
@@ -153,16 +160,21 @@ Definition col_of_loc (s : state) (t k : nat) : option nat :=
   if k <? length (loc s t) then col_of_uid s (nth k (loc s t) O) else None.
 
 (* ------------------------------------------------------------------ designation by name *)
-(* expandList(list, match) String.cpp:339 *)
-Definition expand1 (nm : list name) (p : name) : list name := filter (fun x => rmatch x p) nm.
+(* expandList(list, match) String.cpp:339: an existing name designates itself, otherwise regex expansion *)
+Definition expand1 (nm : list name) (p : name) : list name :=
+  if mem_name p nm then [p] else filter (fun x => rmatch x p) nm.
 (* expandList(list, matches) String.cpp:372 *)
 Definition expand_step (nm : list name) (acc : list name) (p : name) : list name :=
-  fold_left (fun a x => if rmatch x p && negb (mem_name x a) then a ++ [x] else a) nm acc.
+  if mem_name p nm then (if mem_name p acc then acc else acc ++ [p])
+  else fold_left (fun a x => if rmatch x p && negb (mem_name x a) then a ++ [x] else a) nm acc.
 Definition expand_many (nm : list name) (ps : list name) : list name :=
   fold_left (expand_step nm) ps [].
-(* getRankInList String.cpp:209 *)
+(* getRankInList String.cpp:209: first the item equal to the pattern, then the first regex match *)
 Definition rank_in_list (nm : list name) (p : name) : option nat :=
-  find_index (fun x => rmatch x p) nm.
+  match find_index (fun x => name_eqb x p) nm with
+  | Some i => Some i
+  | None => find_index (fun x => rmatch x p) nm
+  end.
 (* _getUIDsBasic Db.cpp:4273: empty as soon as one name fails *)
 Definition uids_basic (s : state) (ns : list name) : list nat :=
   match mapM (fun n => match rank_in_list (names s) n with
@@ -204,12 +216,13 @@ Definition clean_if (clean : bool) (t : loctype) (s : state) : state :=
 (* "if (locatorIndex < 0) locatorIndex = _getNextLocator(locatorType)" Db.cpp:1071, 342 *)
 Definition resolve_index (t : loctype) (k : Z) (s : state) : nat :=
   if (k <? 0)%Z then match t with Some t' => length (loc s t') | None => O end else Z.to_nat k.
-(* body of setLocatorByUID after the optional clean and the index resolution, Db.cpp:1151-1174.
-   DEFECT (finding setLocatorByUID:deleted-uid): isUIDValid only tests the range, a deleted uid passes *)
+(* setLocatorByUID without clean, index resolved, Db.cpp:1141-1175: nothing for an out-of-range uid or the
+   uid of a deleted column *)
 Definition set_loc1 (u : Z) (t : loctype) (k : nat) (s : state) : state :=
   match zidx u (uidmax s) with
   | None => s
   | Some u' =>
+      if negb (live s u') then s else
       let l2 := fun t0 => erase1 u' (loc s t0) in
       match t with
       | None => with_loc s l2
@@ -225,11 +238,11 @@ Fixpoint set_loc_seq (us : list Z) (t : loctype) (k : nat) (s : state) : state :
 Definition set_locs (us : list Z) (t : loctype) (k : Z) (clean : bool) (s : state) : state :=
   let s1 := clean_if clean t s in
   set_loc_seq us t (resolve_index t k s1) s1.
-(* setLocatorByUID Db.cpp:1136: nothing at all (not even the clean) for an out-of-range uid *)
+(* setLocatorByUID Db.cpp:1136: nothing at all (not even the clean) for an out-of-range or deleted uid *)
 Definition set_loc_uid (u : Z) (t : loctype) (k : Z) (clean : bool) (s : state) : state :=
   match zidx u (uidmax s) with
   | None => s
-  | Some _ => set_locs [u] t k clean s
+  | Some u' => if live s u' then set_locs [u] t k clean s else s
   end.
 (* setLocatorByColIdx Db.cpp:1177 *)
 Definition set_loc_col (c : Z) (t : loctype) (k : Z) (clean : bool) (s : state) : state :=
@@ -239,11 +252,9 @@ Definition set_loc_col (c : Z) (t : loctype) (k : Z) (clean : bool) (s : state) 
   end.
 (* setLocatorsByUID(number, iuid, ...) Db.cpp:1204 *)
 Definition zrange (u : Z) (n : Z) : list Z := map (fun i => (u + Z.of_nat i)%Z) (seq 0 (Z.to_nat n)).
-(* setLocatorsByColIdx Db.cpp:1231.
-   DEFECT (finding setLocatorsByColIdx:loop-counter): getUIDByColIdx(icol) is applied to the loop
-   counter, not to icols[icol] *)
+(* setLocatorsByColIdx Db.cpp:1231: iuid = getUIDByColIdx(icols[icol]) *)
 Definition set_locs_col_uids (cs : list Z) (s : state) : list Z :=
-  map (fun i => oz (uid_of_col s i)) (seq 0 (length cs)).
+  map (fun c => oz (uid_of_col_z s c)) cs.
 (* setLocator(name, ...) Db.cpp:1109 and setLocators(names, ...) Db.cpp:1086 *)
 Definition set_locs_ids (ids : list nat) (t : loctype) (k : Z) (clean : bool) (s : state) : state :=
   match ids with
@@ -387,14 +398,14 @@ Definition add_selection (tab : list val) (nm : name) (s : state) : state :=
   end.
 
 (* ------------------------------------------------------------------ name editors *)
-(* setNameByColIdx Db.cpp:3119.  DEFECT (finding setNameByColIdx:duplicate-name): no duplicate repair *)
-Definition set_name_col (c : Z) (n : name) (s : state) : state :=
-  match zidx c (ncol s) with
-  | Some c' => with_names s (set_nth c' n (names s))
-  | None => s
-  end.
 Definition set_name_at (c : nat) (n : name) (s : state) : state :=
   with_names s (correct_new_name (set_nth c n (names s)) c).
+(* setNameByColIdx Db.cpp:3119 *)
+Definition set_name_col (c : Z) (n : name) (s : state) : state :=
+  match zidx c (ncol s) with
+  | Some c' => set_name_at c' n s
+  | None => s
+  end.
 (* setNameByUID Db.cpp:3111 *)
 Definition set_name_uid (u : Z) (n : name) (s : state) : state :=
   match zidx u (uidmax s) with
@@ -558,18 +569,18 @@ Definition sel_value (s : state) (e : nat) : val :=
   | None => None
   end.
 Definition nonzero (v : val) : bool := match v with Some 0%Z => false | _ => true end.
-(* getSampleNumber(useSel = true) Db.cpp:2773.
-   DEFECT (finding getSampleNumber:undefined-selection): an undefined selection value counts as active *)
-Definition active_number (s : state) : nat :=
-  match loc s SEL with
-  | [] => nech s
-  | _ => length (filter (fun e => nonzero (sel_value s e)) (seq 0 (nech s)))
-  end.
 (* isActive Db.cpp:2927 -> getSelection Db.cpp:2702 (domain reference off) *)
 Definition is_active (s : state) (e : nat) : bool :=
   match loc s SEL with
   | [] => true
   | _ => match sel_value s e with None => false | Some z => negb (z =? 0)%Z end
+  end.
+
+(* getSampleNumber(useSel = true) Db.cpp:2773: counts the samples whose getSelection is not 0 *)
+Definition active_number (s : state) : nat :=
+  match loc s SEL with
+  | [] => nech s
+  | _ => length (filter (is_active s) (seq 0 (nech s)))
   end.
 
 Record obs := mkObs {
@@ -596,8 +607,7 @@ Definition observe (s : state) : obs :=
     (map (is_active s) (seq 0 (nech s)))
     (names s)
     (map (fun u => oz (col_of_uid s u)) (seq 0 (uidmax s)))
-    (map Z.of_nat (filter (fun u => match col_of_uid s u with Some _ => true | None => false end)
-                          (seq 0 (uidmax s))))
+    (map Z.of_nat (filter (live s) (seq 0 (uidmax s))))
     (map (fun c => oz (uid_of_col s c)) cs)
     (map (fun c => match loc_of_col s c with
                    | Some (t, k) => (Z.of_nat t, Z.of_nat k)
